@@ -156,4 +156,112 @@ theorem gen_maf_eq_model (N : MafNet α) (tf : List α → Bij α Unit α) (x : 
 
 end generic
 
+/-! ## transfer of the theorems about the hand models to the generated definitions (at `ℝ`) -/
+section real
+open Set
+
+/-- a bijection record `g` that agrees with a lawful `b` (after the change of condition `κ`) on two sets closed under `b`
+is lawful there -/
+theorem lawful_transfer {X C C' L : Type} (g : Bij X C' L) (b : Bij X C L) (κ : C' → C) (D E D₀ E₀ : Set X)
+    (hb : b.Lawful D₀ E₀) (hD : D ⊆ D₀) (hE : E ⊆ E₀)
+    (hmaps : ∀ x ∈ D, ∀ c, b.fwd x c ∈ E) (hmapsInv : ∀ y ∈ E, ∀ c, b.inv y c ∈ D)
+    (hfwd : ∀ x ∈ D, ∀ c, g.fwd x c = b.fwd x (κ c)) (hinv : ∀ y ∈ E, ∀ c, g.inv y c = b.inv y (κ c))
+    (h1 : ∀ x c, (g.fwdLd x c).1 = g.fwd x c) (h2 : ∀ y c, (g.invLd y c).1 = g.inv y c) : g.Lawful D E := by
+  refine ⟨?_, ?_, ?_, ?_, h1, h2⟩
+  · intro x hx c; rw [hfwd x hx]; exact hmaps x hx _
+  · intro y hy c; rw [hinv y hy]; exact hmapsInv y hy _
+  · intro x hx c; rw [hfwd x hx, hinv _ (hmaps x hx _)]; exact hb.left x (hD hx) _
+  · intro y hy c; rw [hinv y hy, hfwd _ (hmapsInv y hy _)]; exact hb.right y (hE hy) _
+
+/-- the point returned by the generated `Coupling.transform_and_log_det` is `Coupling.transform`'s — for EVERY input (no
+shape hypothesis), whenever each scalar transformer has that property -/
+theorem gen_coupling_fwdLd_fst (self : CouplingObj ℝ)
+    (h : ∀ ps t, ((self.transformer_constructor ps).fwdLd t ()).1 = (self.transformer_constructor ps).fwd t ())
+    (x : List ℝ) (c : Option (List ℝ)) :
+    (Coupling.transformAndLogDet self x c).1 = Coupling.transform self x c := by
+  cases c <;>
+    simp only [Coupling.transformAndLogDet, Coupling.transform, coupling_flat_eq, Nw.vmapTransformLd, Nw.vmapTransform,
+      Nw.Vmap, vmapFwdLd, Nw.hstack, NetLawful.zipWith_map_fst _ h, zipWith_map_tf]
+
+theorem gen_coupling_invLd_fst (self : CouplingObj ℝ)
+    (h : ∀ ps t, ((self.transformer_constructor ps).invLd t ()).1 = (self.transformer_constructor ps).inv t ())
+    (y : List ℝ) (c : Option (List ℝ)) :
+    (Coupling.inverseAndLogDet self y c).1 = Coupling.inverse self y c := by
+  cases c <;>
+    simp only [Coupling.inverseAndLogDet, Coupling.inverse, coupling_flat_eq, Nw.vmapInverseLd, Nw.vmapInverse,
+      Nw.Vmap, vmapInvLd, Nw.hstack, NetLawful.zipWith_map_fst_inv _ h, zipWith_map_tf]
+
+/-- **the generated `Coupling` is lawful** on the vectors of the declared length -/
+theorem gen_coupling_lawful (self : CouplingObj ℝ) (D₁ E₁ : Set ℝ)
+    (htf : ∀ ps, (self.transformer_constructor ps).Lawful D₁ E₁) :
+    (Coupling.toBij self).Lawful
+      {x | x.length = self.dim ∧ ∀ t ∈ x.drop self.untransformed_dim, t ∈ D₁}
+      {y | y.length = self.dim ∧ ∀ t ∈ y.drop self.untransformed_dim, t ∈ E₁} := by
+  have hb := NetLawful.coupling_lawful self.untransformed_dim self.conditioner self.transformer_constructor D₁ E₁ htf
+  refine lawful_transfer _ _ (fun c => c.getD []) _ _ _ _ hb (fun x hx => hx.2) (fun y hy => hy.2) ?_ ?_ ?_ ?_ ?_ ?_
+  · intro x hx c
+    exact ⟨(NetLawful.coupling_length' _ _ _ x c).trans hx.1, hb.maps x hx.2 c⟩
+  · intro y hy c
+    exact ⟨(NetLawful.coupling_length' _ _ _ y c).trans hy.1, hb.mapsInv y hy.2 c⟩
+  · intro x hx c; exact (gen_coupling_eq_model self x c hx.1).1
+  · intro y hy c; exact (gen_coupling_eq_model self y c hy.1).2.1
+  · exact gen_coupling_fwdLd_fst self (fun ps t => (htf ps).fwdLd_fst t ())
+  · exact gen_coupling_invLd_fst self (fun ps t => (htf ps).invLd_fst t ())
+
+theorem gen_maf_fwdLd_fst (self : MafObj ℝ)
+    (h : ∀ ps t, ((self.transformer_constructor ps).fwdLd t ()).1 = (self.transformer_constructor ps).fwd t ())
+    (x : List ℝ) (c : Option (List ℝ)) :
+    (Maf.transformAndLogDet self x c).1 = Maf.transform self x c := by
+  cases c <;>
+    simp only [Maf.transformAndLogDet, Maf.transform, Maf.flatParamsToTransformer, Nw.vmapTransformLd, Nw.vmapTransform,
+      Nw.Vmap, vmapFwdLd, Nw.hstack, NetLawful.zipWith_map_fst _ h, zipWith_map_tf]
+
+/-- **the generated `MaskedAutoregressive` is lawful** (object built from any well-shaped masked network) -/
+theorem gen_maf_lawful (N : MafNet ℝ) (hN : N.WellShaped) (tf : List ℝ → Bij ℝ Unit ℝ) (D₁ E₁ : Set ℝ)
+    (htf : ∀ ps, (tf ps).Lawful D₁ E₁) :
+    (Maf.toBij (MafObj.ofNet N tf)).Lawful {x | x.length = N.dim ∧ ∀ t ∈ x, t ∈ D₁} {y | y.length = N.dim ∧ ∀ t ∈ y, t ∈ E₁} := by
+  have hb := NetLawful.maf_lawful N hN tf D₁ E₁ htf
+  refine lawful_transfer _ _ (fun c => c.getD []) _ _ _ _ hb (fun x hx => hx) (fun y hy => hy) hb.maps hb.mapsInv ?_ ?_ ?_ ?_
+  · intro x hx c; exact (gen_maf_eq_model N tf x c hx.1).1
+  · intro y hy c; exact (gen_maf_eq_model N tf y c hy.1).2.1
+  · exact gen_maf_fwdLd_fst (MafObj.ofNet N tf) (fun ps t => (htf ps).fwdLd_fst t ())
+  · intro y c; rfl
+
+/-- the generated forward maps, read in coordinates on `ℝⁿ`, are the hand models' -/
+theorem gen_coupling_coords (self : CouplingObj ℝ) (c : Option (List ℝ)) :
+    NetLogDet.coords self.dim (fun x => (Coupling.toBij self).fwd x c)
+      = NetLogDet.coords self.dim
+          (fun x => (couplingBij self.untransformed_dim self.conditioner self.transformer_constructor).fwd x (c.getD [])) := by
+  funext w
+  unfold NetLogDet.coords
+  beta_reduce
+  rw [(gen_coupling_eq_model self (List.ofFn w) c (by simp)).1]
+
+theorem gen_maf_coords (N : MafNet ℝ) (tf : List ℝ → Bij ℝ Unit ℝ) (c : Option (List ℝ)) :
+    NetLogDet.coords N.dim (fun x => (Maf.toBij (MafObj.ofNet N tf)).fwd x c)
+      = NetLogDet.coords N.dim (fun x => (mafBij N tf).fwd x (c.getD [])) := by
+  funext w
+  unfold NetLogDet.coords
+  beta_reduce
+  rw [(gen_maf_eq_model N tf (List.ofFn w) c (by simp)).1]
+
+end real
+
+/-! ## concrete objects over `ℤ` for the kernel-evaluated instances of `Props/C01`, `C02`, `C09` -/
+
+/-- the scalar family "shift by the first parameter" (log-det `0`) at `ℤ` -/
+def shiftFamilyZ (ps : List Int) : Bij Int Unit Int :=
+  ⟨fun x _ => x + ps.getD 0 0, fun y _ => y + -(ps.getD 0 0), fun x _ => (x + ps.getD 0 0, 0),
+   fun y _ => (y + -(ps.getD 0 0), 0)⟩
+
+/-- a `Coupling` on `ℤ³` (`untransformed_dim = 1`, `cond_dim = 1`) with the non-linear conditioner
+`(a, c) ↦ (a², a + c)` -/
+def couplingExampleZ : CouplingObj Int :=
+  CouplingObj.mk' 1 3 (some 1) (fun l => [l.getD 0 0 * l.getD 0 0, l.getD 0 0 + l.getD 1 0]) shiftFamilyZ
+
+/-- the masked net of `MasksPf.mafExample` (dim 2, width 2, depth 1, identity activation, all raw weights 1) at `ℤ` -/
+def mafExampleZ : MafNet Int :=
+  { dim := 2, condDim := none, width := 2, depth := 1, numParams := 1,
+    weights := [[[1, 1], [1, 1]], [[1, 1], [1, 1]]], biases := [[0, 0], [0, 0]], act := fun z => z }
+
 end NetGenPf
